@@ -696,21 +696,17 @@ Definition decl_safe (S : schema) (d : document) : bool :=
   forallb (fun n => go_ident_ok (field_name n) && negb (starts_with (bs "__") n)) (composites ++ frag_names ++ conds) &&
   forallb (fun k => go_ident_ok (field_name k)) keys.
 
-(** the names-only premise of the decoding theorems: no composite type, fragment, type condition or
-    spread is named with a leading "__" (the generator gives the fields of fragments the JSON tag
-    "-", and the decoder of the model, like encoding/json, then never fills them from a key; a field
-    for a name beginning "__" would be spelled with the same leading underscores).  [schema.New]
-    rejects type names beginning with "__" (graphql/schema/schema.go, "illegal type name"), and a
-    valid document takes its type conditions from the schema; for fragment names neither the parser
-    nor the validator has such a rule. *)
-Definition names_no_dunder (S : schema) (d : document) : bool :=
+(** known finding [blank-field-name] (names only): a composite type, fragment, type condition or
+    spread named "_" - a GraphQL name; [fieldName] leaves it as it is and the struct field that holds
+    the fragment is the blank identifier, which the generated UnmarshalJSON cannot refer to *)
+Definition blank_member (S : schema) (d : document) : bool :=
   let composites := flat_map (fun t => match t with
                                        | DObj n _ _ | DIface n _ | DUnion n _ => [n]
                                        | _ => []
                                        end) (s_types S) in
   let conds := flat_map (fun o => flat_map sel_conds (op_sels o)) (d_ops d) ++
                flat_map (fun f => flat_map sel_conds (fr_sels f)) (d_frags d) in
-  forallb (fun n => negb (starts_with (bs "__") n)) (composites ++ map fr_name (d_frags d) ++ conds).
+  mem (bs "_") (composites ++ map fr_name (d_frags d) ++ conds).
 
 (** ** Responses shaped by an operation *)
 Inductive rv :=
